@@ -35,7 +35,7 @@ def run_property(pid: str, tier: str, seed: int) -> int:
                 run.error(f"positive control for {c['rule']} did not fire on the injected construct {c['expected']} (matcher no longer recognises what it is meant to forbid)")
         run.rules_applied.append(
             "positive controls: the tree is re-loaded once with in-memory injections of a forbidden construct per zero-count rule "
-            "(R-DUP, R-TRUTHY, R-PICKLE, R-MEMO, R-REMAINDER, R-TOL, R-PRECISION, R-ABSEPS); each rule must report the injected construct, otherwise the run fails as analysis-broken"
+            "(R-DUP, R-TRUTHY, R-PICKLE, R-MEMO, R-REMAINDER, R-TOL, R-PRECISION, R-SHAREDMUT, R-ITERTWICE, R-EPSGPROXY, R-ABSEPS); each rule must report the injected construct, otherwise the run fails as analysis-broken"
         )
         if tier == "thorough" and not os.environ.get("ODCVERIF_NO_SWEEP"):
             from .mutate import sensitivity_sweep
